@@ -47,6 +47,7 @@ impl Verdict {
 fn kind_name(op: &Op) -> &'static str {
     match op {
         Op::SetReporter { .. } => "SetReporter",
+        Op::ReplaceReporter { .. } => "ReplaceReporter",
         Op::Spawn { .. } => "Spawn",
         Op::Join { .. } => "Join",
         Op::ThreadEnd => "ThreadEnd",
@@ -85,6 +86,7 @@ fn kind_name(op: &Op) -> &'static str {
         Op::HoldChild => "HoldChild",
         Op::EventNew { .. } => "EventNew",
         Op::UserPanic { .. } => "UserPanic",
+        Op::BodyPanic => "BodyPanic",
         Op::AddEventFrom { .. } => "AddEventFrom",
         Op::Collect { .. } => "Collect",
         Op::UnwindScope { .. } => "UnwindScope",
@@ -162,6 +164,7 @@ fn common_probes(a: &Analysis, v: &mut Verdict) {
     let count_ops = |f: &dyn Fn(&Op) -> bool| a.case.ops.iter().filter(|r| f(&r.op) || r.inner.iter().any(|o| f(o))).count() as u64;
     v.probe("fault.cancel_calls", count_ops(&|o| matches!(o, Op::Cancel { .. })));
     v.probe("fault.unwind_through_scope", count_ops(&|o| matches!(o, Op::UnwindScope { .. })));
+    v.probe("fault.reporter_replaced", count_ops(&|o| matches!(o, Op::ReplaceReporter { .. })));
     v.probe("swarm_runs", crate::gen::is_swarm(a.case.seed) as u64);
     v.probe("fault.user_code_panics_inside_call", count_ops(&|o| matches!(o, Op::UserPanic { .. })));
     v.probe("prepared_events_recorded_later", count_ops(&|o| matches!(o, Op::AddEventFrom { .. })));
@@ -210,7 +213,7 @@ fn common_probes(a: &Analysis, v: &mut Verdict) {
 
 pub fn permitted_omission(a: &Analysis, r: &ExpRec) -> bool {
     let o = outer(r.submit_op);
-    a.lost_submit_ops.contains(&o) || a.tls_gone_ops.contains(&o) || !a.op_executed(o) || a.hist.ops[o].panic.is_some()
+    a.relaxed(r.collect) || a.lost_submit_ops.contains(&o) || a.tls_gone_ops.contains(&o) || !a.op_executed(o) || a.hist.ops[o].panic.is_some()
 }
 
 /// position (batch index) at which expectation i was first delivered
